@@ -115,9 +115,15 @@ var rids = map[string][2]string{ // rid -> group, type
 	"svc.q.2":  {"svc.q.2", "model"},
 	"svc.qs.1": {"shared", "collection"},
 	"svc.qs.2": {"shared", "collection"},
+	// a Parallel resource: no group, its callbacks may overlap (serialization and
+	// nil-comes-last are not claimed for it; one response per request and release are)
+	"svc.qp.1": {"", "model"},
 }
 
 func (m *machine) enter(group string) {
+	if group == "" {
+		return
+	}
 	m.mu.Lock()
 	m.occ[group]++
 	if m.occ[group] > 1 {
@@ -127,6 +133,9 @@ func (m *machine) enter(group string) {
 }
 
 func (m *machine) leave(group string) {
+	if group == "" {
+		return
+	}
 	m.mu.Lock()
 	m.occ[group]--
 	m.mu.Unlock()
@@ -152,7 +161,7 @@ func (m *machine) queryCallback(qe *qevent) func(res.QueryRequest) {
 		defer m.leave(qe.group)
 		m.mu.Lock()
 		qe.cbTicks = append(qe.cbTicks, tick)
-		if qe.nilCalls > 0 {
+		if qe.nilCalls > 0 && qe.group != "" {
 			m.viol = append(m.viol, fmt.Sprintf("query event %d on %s: callback invoked with a request after it was invoked with nil", qe.id, qe.rid))
 		}
 		id, err := strconv.Atoi(strings.TrimPrefix(qr.Query(), "id="))
@@ -374,6 +383,7 @@ func run(c Case) (out result) {
 	get := res.GetResource(func(r res.GetRequest) { r.NotFound() })
 	s.Handle("q.$id", res.Model, get)
 	s.Handle("qs.$id", res.Collection, get, res.Group("shared"))
+	s.Handle("qp.$id", res.Model, get, res.Parallel(true))
 	m.s = s
 	m.conn = fakeconn.New()
 	m.conn.OnPublish = func(e fakeconn.Entry) {
@@ -436,7 +446,7 @@ func run(c Case) (out result) {
 			m.viol = append(m.viol, fmt.Sprintf("query event %d on %s: callback invoked with nil %d times after expiry, expected exactly once", qe.id, qe.rid, qe.nilCalls))
 		}
 		for _, tk := range qe.cbTicks {
-			if qe.nilCalls > 0 && tk > qe.nilTick {
+			if qe.nilCalls > 0 && tk > qe.nilTick && qe.group != "" {
 				m.viol = append(m.viol, fmt.Sprintf("query event %d: a request callback ran after the nil call", qe.id))
 			}
 		}
@@ -485,7 +495,9 @@ func run(c Case) (out result) {
 	alive := map[string]int{}
 	for _, qe := range m.evs {
 		if !qe.failed {
-			alive[qe.group]++
+			if qe.group != "" {
+				alive[qe.group]++
+			}
 		}
 	}
 	for _, n := range alive {
@@ -638,7 +650,7 @@ func genCase() *rapid.Generator[Case] {
 	return rapid.Custom(func(t *rapid.T) Case {
 		c := Case{Workers: rapid.IntRange(1, 3).Draw(t, "workers"), DurMs: rapid.SampledFrom([]int{1000, 2000, 5000}).Draw(t, "dur")}
 		c.Gates = gateSets[rapid.IntRange(0, len(gateSets)-1).Draw(t, "gates")]
-		ridList := []string{"svc.q.1", "svc.q.2", "svc.qs.1", "svc.qs.2"}
+		ridList := []string{"svc.q.1", "svc.q.2", "svc.qs.1", "svc.qs.2", "svc.qp.1"}
 		n := rapid.IntRange(2, 40).Draw(t, "nops")
 		emitted := 0
 		for i := 0; i < n; i++ {
